@@ -420,9 +420,9 @@ class Engine:
             for a in s.assertions():
                 if z3.is_quantifier(a):
                     continue
-                v = model.eval(a, model_completion=True)
-                if z3.is_false(v):
-                    return False
+                v = z3.simplify(model.eval(a, model_completion=True))
+                if not z3.is_true(v):
+                    return False          # false, or not decided by the model: not an accepted counterexample
         except z3.Z3Exception:
             return True
         return True
@@ -1670,12 +1670,12 @@ class Engine:
                 j, ok = ops.norm_index(key, n)
                 if not ok:
                     self.raise_exc(IndexError, "list index out of range")
-                return base.items[j]
+                return self.slot_read(base, j)
             j, ok = ops.norm_index(key, n)
             if not self.decide(ok):
                 self.raise_exc(IndexError, "list index out of range")
             k = self.choose([mk_bool(j == p) for p in range(n)])
-            return base.items[k]
+            return self.slot_read(base, k)
         if isinstance(base, (tuple, list)) and not isinstance(key, int):
             n = len(base)
             j, ok = ops.norm_index(key, n)
@@ -1711,6 +1711,12 @@ class Engine:
         if h is not NotImplemented:
             return h
         raise Unsupported("subscript of %r" % (base,))
+
+    def slot_read(self, lst, j):
+        v = lst.items[j]
+        if hasattr(v, "with_origin"):
+            return v.with_origin(lst, j)      # a lazily materialised slot remembers where it was read from
+        return v
 
     def native_dict_get(self, d, key):
         """lookup in a module-level constant table; symbolic keys need a validated table summary"""
